@@ -76,6 +76,10 @@ pub fn run_property(ctx: &Ctx) -> Option<Report> {
             if mon == Monitor::C12 {
                 sim::run_memory(ctx, &mut r);
             }
+            if mon == Monitor::C01 {
+                // the statement's size assumption made tight: a key-value that exactly fits
+                mtu::run_max_value(ctx, &mut r);
+            }
             r
         }
         "C14" => {
@@ -182,7 +186,10 @@ pub fn replay_property(ctx: &Ctx, sub: &str, case: &serde_json::Value) -> SubRes
             "histories" => sim::replay(ctx, sub, case, Monitor::C20),
             _ => pairs::replay_apply(ctx, sub, case, "C20"),
         },
-        "C01" => sim::replay(ctx, sub, case, Monitor::C01),
+        "C01" => match sub {
+            "max-size-value" => mtu::replay_max_value(ctx, sub, case),
+            _ => sim::replay(ctx, sub, case, Monitor::C01),
+        },
         "C02" => sim::replay(ctx, sub, case, Monitor::C02),
         "C03" => sim::replay(ctx, sub, case, Monitor::C03),
         "C05" => sim::replay(ctx, sub, case, Monitor::C05),
